@@ -256,6 +256,8 @@ class Path:
         """use an Opt as a non-None value: obligation that it is not None on this path"""
         if not isinstance(o, Opt):
             return o
+        if self.spec_mode:
+            return o.val        # specifications guard optional values themselves (implies(x is not None, ...))
         if self.branch(o.isnone):
             raise self.pyexc('TypeError')
         return o.val
